@@ -150,10 +150,32 @@ def judge_c02(d, base=None):
     if base is not None and d.final is not None:
         fk = _final(d.final)
         if fk != base:
+            feat = {"got": fk[0], "want": base[0]}
+            feat.update(_final_diff(d, fk, base))
             V(out, "C02", "final-outcome-depends-on-interruptions",
-              f"final outcome {fk} differs from the uninterrupted run's {base}",
-              got=fk[0], want=base[0])
+              f"final outcome {fk} differs from the uninterrupted run's {base}", **feat)
     return out
+
+
+def _final_diff(d, got, want):
+    """Which top-level operation's delivery differs between two SUCCEEDED finals."""
+    import json
+    try:
+        g = json.loads(got[1])["r"]
+        w = json.loads(want[1])["r"]
+    except Exception:  # noqa: BLE001
+        return {}
+    for i, (a, b) in enumerate(zip(g, w)):
+        if a != b:
+            kinds = {o["op"] for o in d.world.obs if o["path"][:1] == (i + 1,) and len(o["path"]) == 1}
+            return {"kind": "+".join(sorted(kinds)) or "?", "replay": _rcls(a), "first": _rcls(b)}
+    return {"len": f"{len(g)}vs{len(w)}"}
+
+
+def _rcls(r):
+    if r.startswith("tuple(str:'caught',str:'"):
+        return r.split("str:'")[2].split("'")[0]
+    return "value"
 
 
 def _cls(o):
